@@ -198,7 +198,7 @@ def snappy(ctx):
     f = ctx.f
     if not ctx.has_feature('snappy'):
         return
-    enc = fn_by_label(f, P + 'writer::compression::CompressionCodecState::encode')
+    enc = with_helpers(fn_by_label(f, P + 'writer::compression::CompressionCodecState::encode'))
     ok = False
     det = 'crc call not found'
     if enc:
@@ -226,7 +226,14 @@ def snappy(ctx):
         for bb, t in st.calls():
             if cname(t) == 'crc32fast::hash':
                 src = origin(st, t['args'][0])
-                over = 'decompression_buffer' in ''.join(str(st.local_name(a[1])) for a in src.atoms if a[0] == 'param') or any(st.local_name(a[1]) == 'decompression_buffer' for a in src.atoms if a[0] == 'param') or 'decompression_buffer' in src.fields
+                # the buffer hashed is the one the snappy decoder wrote into (same parameter / local of `state`)
+                outs = set()
+                for cb in [st] + f.closures_of(st):
+                    for b3, t3 in cb.calls():
+                        if cname(t3).endswith('Decoder::decompress') and len(t3['args']) > 2:
+                            oo = origin(cb, t3['args'][2])
+                            outs |= {a for a in oo.atoms if a[0] == 'param'}
+                over = bool(outs) and {a for a in src.atoms if a[0] == 'param'} == outs
                 # expected: from_be_bytes(read_const_size_buf::<4>) read AFTER the compressed slice
                 exp = None
                 for b2, t2 in st.calls():
@@ -237,6 +244,12 @@ def snappy(ctx):
                 for b2, t2 in st.calls():
                     if call_matches(t2, ['::checked_sub']) and origin(st, t2['args'][1]).consts() == {4} and origin(st, t2['args'][0]).params():
                         sub4 = 'try' in origin(st, {'copy': t2['dest']}).flags or True
+                # ... or the explicit form: `if block_size < 4 { return Err(..) }  block_size - 4`
+                for b2 in sorted(st.live_blocks()):
+                    for s2 in st.stmts(b2):
+                        if 'assign' in s2 and s2['rv']['k'] == 'bin' and s2['rv']['op'] in ('Sub', 'SubWithOverflow') and const_int(s2['rv']['r']) == 4 \
+                                and origin(st, s2['rv']['l']).params() and sub_is_guarded(st, b2, s2['rv']['l'], s2['rv']['r']):
+                            sub4 = True
                 be = False
                 cmp_err = False
                 if exp:
